@@ -47,6 +47,11 @@ func c18Scenarios(tier string) []c18Scenario {
 	}
 	if tier == "thorough" {
 		for a := 0; a < nb; a++ {
+			for b := a; b < nb; b++ {
+				sc = append(sc, c18Scenario{[]int{a, b}, []int{1, 2}, 2, 3})
+			}
+		}
+		for a := 0; a < nb; a++ {
 			sc = append(sc, c18Scenario{[]int{a, a}, []int{1, 1}, 3, 1}, c18Scenario{[]int{a, a}, []int{1, 1}, 2, 3})
 		}
 		for a := 0; a < nb; a++ {
